@@ -469,7 +469,8 @@ class Auto(Component):
     def _gen(self, rng, exotic: bool):
         steps: List[list] = []
         snaplike = rng.random() < 0.5
-        ETAGS = self.ETAGS + (["x\u2029", "\U0001F600\x85"] if exotic and rng.random() < 0.3 else [])
+        ETAGS = self.ETAGS + (["x\u2029", "\U0001F600\x85"] if exotic and rng.random() < 0.3 else []) \
+            + ([7, "7", "10"] if rng.random() < 0.3 else [])
         payloads = [self._snap_payload(rng, None, exotic) if snaplike else gen_obj(rng, rng.choice([0, 1, 2]), 3)]
 
         def pay():
@@ -494,6 +495,17 @@ class Auto(Component):
             else:
                 steps.append(["loadf", et])
 
+        def pair():
+            # (etag_from, etag_to): distinct in either order, EQUAL (a quiet turn: same version, new payload), or equal only
+            # after normalisation (7 / "7")
+            r = rng.random()
+            if r < 0.3:
+                e = rng.choice(ETAGS)
+                alt = {7: "7", "7": 7}.get(e, e) if rng.random() < 0.5 else e
+                return e, alt
+            a, b = rng.sample(ETAGS, 2)
+            return (a, b) if rng.random() < 0.5 else (max(str(a), str(b)), min(str(a), str(b)))
+
         def kill_script():
             # the k-th FS call of the atomic writer dies (Crash, a BaseException: no cleanup runs); `short:n` entries make
             # raw writes partial, so empty, partial and complete temps are all left behind
@@ -515,6 +527,8 @@ class Auto(Component):
                 foreign(et)
             elif r < 0.4:
                 ef = rng.choice(ETAGS + [None, ""]) if rng.random() < 0.9 else None
+                if rng.random() < 0.2:
+                    ef = et
                 steps.append(["auto", ef, et, pay(), rng.random() < 0.75])
                 if rng.random() < 0.6:
                     reads(et)
@@ -529,7 +543,7 @@ class Auto(Component):
         if r0 < 0.3:
             # scripted skeleton: the FIRST write of baseline e0 is killed mid-way (or foreign look-alike files lie around);
             # every reader and the next delta writer must behave as if that write never happened
-            e0, e1 = rng.sample(ETAGS, 2)
+            e0, e1 = pair()
             for _ in range(rng.choice([0, 0, 1, 2])):
                 foreign(rng.choice([e0, e1]))
             if rng.random() < 0.8:
@@ -553,10 +567,14 @@ class Auto(Component):
                 rand_step()
         elif r0 < 0.75:
             # scripted skeleton: full baseline, delta on top, then a fault on the baseline
-            e0, e1 = rng.sample(ETAGS, 2)
+            e0, e1 = pair()
             steps.append(["auto", None, e0, enc(payloads[0]), rng.random() < 0.3])
             steps.append(["auto", e0, e1, pay(), True])
             reads(e1)
+            if str(e0) == str(e1):
+                steps.append(["read", e1])
+                steps.append(["readp", "delta", e1])
+                reads(e1)
             fault = rng.choice(["rm", "rm", "corrupt", "none", "sibling-first"])
             if fault == "sibling-first":
                 steps.append(["auto", None, e1, pay(), False])
@@ -704,7 +722,9 @@ class Auto(Component):
 
     @staticmethod
     def _same_load(a: dict, b: dict) -> bool:
-        return all(a.get(f) == b.get(f) for f in ("loaded", "version_etag", "state"))
+        va, vb = a.get("version_etag"), b.get("version_etag")
+        return a.get("loaded") == b.get("loaded") and a.get("state") == b.get("state") and \
+            (va == vb or (va is not None and vb is not None and str(va) == str(vb)))
 
     def _killed_write(self, d: str, st: list) -> dict:
         """the REAL write_snapshot_auto with the atomic writer dying at the scripted FS call (harness/lib/faults.py)."""
@@ -760,7 +780,20 @@ class Auto(Component):
         # `loadf` (load_latest_snapshot on a FULL file) is answered by the model's read of that file
         return {"c": "delta.auto", "steps": [s[:3] if s[0] == "corrupt" else (["readp", "full", s[1]] if s[0] == "loadf" else
                                                                               (["rm", "full", "\u0000never-written"] if s[0] == "foreign" else s))
-                                             for s in case["steps"]]}
+                                             for s in map(self._nstep, case["steps"])]}
+
+    _ETAG_POS = {"auto": (1, 2), "kill": (1, 2), "read": (1,), "load": (1,), "loadf": (1,), "readp": (2,), "rm": (2,),
+                 "corrupt": (2,), "foreign": (2,)}
+
+    @classmethod
+    def _nstep(cls, st: list) -> list:
+        """etags reach file names and headers through f-strings / JSON: 7 and "7" name the same snapshot.  The model and the
+        bookkeeping work on the normalised (string) etag; the real code gets the value as generated."""
+        st = list(st)
+        for i in cls._ETAG_POS.get(st[0], ()):
+            if i < len(st) and st[i] is not None and not isinstance(st[i], str):
+                st[i] = str(st[i])
+        return st
 
     @staticmethod
     def _nolines(out):
@@ -774,6 +807,7 @@ class Auto(Component):
                         for x in o]
             return o
         impl_out = self._nolines(impl_out)
+        case = {"steps": [self._nstep(s) for s in case["steps"]]}
         if isinstance(impl_out, list) and isinstance(model_out, list) and len(impl_out) == len(model_out):
             impl_out, model_out = list(impl_out), list(model_out)
             for i, st in enumerate(case["steps"]):
@@ -833,7 +867,12 @@ class Auto(Component):
             tags.add("payload:line-breaking-or-astral-chars")
         raw_out = impl_out
         impl_out = self._nolines(impl_out)
-        for idx, (st, o) in enumerate(zip(case["steps"], impl_out)):
+        nsteps = [self._nstep(s) for s in case["steps"]]
+        if any(s[0] in ("auto", "kill") and s[1] is not None and s[1] == s[2] for s in nsteps):
+            tags.add("etags:from==to")
+        if any(a != b for a, b in zip(nsteps, case["steps"])):
+            tags.add("etags:non-string-form")
+        for idx, (st, o) in enumerate(zip(nsteps, impl_out)):
             if st[0] == "foreign":
                 tags.add("foreign-lookalike-file")
                 continue
@@ -887,7 +926,7 @@ class Auto(Component):
                     res.append(("load_latest_picked_the_full_file", o.get("picked_ok", False), "picker chose another file"))
                     wv = dec(fl).get("version_etag") if isinstance(dec(fl), dict) else None
                     res.append(("load_latest_loads_written_full_snapshot",
-                                o["loaded"] is True and o["version_etag"] == (wv if wv is not None else et),
+                                o["loaded"] is True and str(o["version_etag"]) == str(wv if wv is not None else et),
                                 f"full snapshot of {et!r} written, loader answered loaded={o['loaded']} version_etag={o['version_etag']!r}"))
                     want = self._oracle_state(et, fl)
                     if want is not None:
@@ -901,7 +940,7 @@ class Auto(Component):
                         and prev is not None and prev[2] == et and prev[5] == {"mode": "delta"}:
                     wv = dec(dl[1]).get("version_etag") if isinstance(dec(dl[1]), dict) else None
                     res.append(("load_latest_loads_written_delta_snapshot",
-                                o["loaded"] is True and o["version_etag"] == (wv if wv is not None else et),
+                                o["loaded"] is True and str(o["version_etag"]) == str(wv if wv is not None else et),
                                 f"delta snapshot of {et!r} written with baseline present, loader answered loaded={o['loaded']} "
                                 f"version_etag={o['version_etag']!r}"))
                 if isinstance(o, dict) and "state" in o and isinstance(dl, tuple):
